@@ -19,7 +19,13 @@ git apply -R "$D/patch.diff"
 PYTHONPATH=$WT NUMBA_CACHE_DIR=/tmp/seed/numba_$SID /venv/bin/python "$D/demo.py" >/dev/null 2>&1; DEMO_WITHOUT=$?
 echo "[$SID] scratch: tests with change: $T_WITH | demo with change exit=$DEMO_WITH | demo without exit=$DEMO_WITHOUT"
 cd /verif
-git -C /repo apply "$D/patch.diff" || { echo "patch does not apply to /repo"; exit 2; }
+if [ "${SEED_USE_WORKTREE:-0}" = "1" ]; then
+  # run the checks against the scratch worktree itself (used while something else is reading /repo)
+  git -C "$WT" apply "$D/patch.diff" || { echo "patch does not apply"; exit 2; }
+  export VERIF_REPO="$WT"
+else
+  git -C /repo apply "$D/patch.diff" || { echo "patch does not apply to /repo"; exit 2; }
+fi
 RES=""
 for P in $PROPS; do
   OUT=$(VERIF_SEARCH_S=120 timeout 1500 ./check $P quick 2>&1 | grep -E "VIOLATION|KNOWN|quick:|infrastructure" | tr '\n' ' ')
@@ -28,8 +34,7 @@ for P in $PROPS; do
   R=$(echo "$OUT" | grep -o 'replay=[^ ]*' | head -1 | cut -d= -f2)
   [ -n "$R" ] && [ -f "$R" ] && cp "$R" "$D/replay_$P.json"
 done
-git -C /repo checkout -- .
-git -C /repo status --short | head -3
+if [ "${SEED_USE_WORKTREE:-0}" = "1" ]; then git -C "$WT" checkout -- corankco; else git -C /repo checkout -- .; git -C /repo status --short | head -3; fi
 python3 - "$SID" "$T_WITH" "$DEMO_WITH" "$DEMO_WITHOUT" "$RES" <<'PY'
 import json, sys, os
 sid, t, dw, dwo, res = sys.argv[1:6]
